@@ -184,6 +184,7 @@ class Contract:
         exc_ensures: dict[str, list[str]] | None = None,
         lemmas: list[str] | None = None,
         witness: Any = None, note: str = '',
+        hints: dict[str, list[str]] | None = None,
         locals: dict[str, str] | None = None,
         env: dict[str, Any] | None = None,
     ) -> None:
@@ -201,6 +202,7 @@ class Contract:
         self.lemmas = lemmas or []
         self.witness = witness
         self.locals = locals or {}
+        self.hints = hints or {}
         self.env = env or {}
         self.note = note
 
@@ -664,8 +666,11 @@ class Executor:
             st.assume(z3.Implies(
                 s.is_some(v.t), z3.And(s.v(v.t) >= 0, s.v(v.t) < st.alloc),
             ))
-        elif isinstance(ty, TEnum):
-            pass
+        elif isinstance(ty, TTuple):
+            for i in range(len(ty.items)):
+                if isinstance(ty.items[i], (TRef, TList, TSet, TDict, TOpt,
+                                            TTuple)):
+                    self.known(st, self.tup_get(v, i))
 
     # ------------------------------------------------------------- heap
     def heap_arr(self, st: State, owner: str, field: str, fty: T) -> Any:
